@@ -59,6 +59,7 @@ type stOpts struct {
 	shareAPI     bool
 	groups       []stSubnetGroup // generation 1
 	noIngest     bool
+	geo          int  // GeoIP database: 0 = none (empty database), 1 = every address has a country code and an ASN, 2 = country "unk" (no ASN lookup), 3 = lookups fail
 	realDetector bool // keep the real sendToDetector / clearDetector and give them a go-redis client over a simulated connection
 }
 
@@ -200,6 +201,9 @@ func newStWorld(r *sim.Run, s *hook.Sched, tp *sim.Tape, o stOpts) *stWorld {
 	if w.rm == nil {
 		r.Fail("harness/station-manager", "NewRegistrationManager returned nil")
 		return nil
+	}
+	if o.geo != 0 {
+		w.rm.GeoIP = stGeo{o.geo}
 	}
 	w.rm.LivenessTester = &stTester{w}
 	sharedLogger = w.rm.Logger
@@ -640,7 +644,10 @@ type stCaptureConn struct {
 	writes []int
 }
 
-func (c *stCaptureConn) Write(p []byte) (int, error)      { c.writes = append(c.writes, len(p)); return c.buf.Write(p) }
+func (c *stCaptureConn) Write(p []byte) (int, error) {
+	c.writes = append(c.writes, len(p))
+	return c.buf.Write(p)
+}
 func (c *stCaptureConn) Read(p []byte) (int, error)       { return 0, io.EOF }
 func (c *stCaptureConn) Close() error                     { return nil }
 func (c *stCaptureConn) LocalAddr() net.Addr              { return simnet.TCP("198.51.100.1", 1) }
@@ -871,4 +878,25 @@ func stReadN(c net.Conn, n int, deadline time.Duration) ([]byte, error) {
 		}
 	}
 	return buf, nil
+}
+
+// stGeo stands in for the MaxMind databases (the per-country / per-ASN statistics paths of the
+// connection handler only run for addresses the database knows).
+type stGeo struct{ kind int }
+
+func (g stGeo) CC(ip net.IP) (string, error) {
+	switch g.kind {
+	case 1:
+		return []string{"US", "DE", "IR"}[int(ip[len(ip)-1])%3], nil
+	case 2:
+		return "unk", nil
+	}
+	return "", errors.New("geoip: lookup failed")
+}
+
+func (g stGeo) ASN(ip net.IP) (uint, error) {
+	if g.kind == 3 {
+		return 0, errors.New("geoip: lookup failed")
+	}
+	return 64500 + uint(ip[len(ip)-1])%4, nil
 }
